@@ -92,9 +92,12 @@ Theorem C04_eventually_entered_or_refused : forall ops,
 Proof. exact eventually_entered_or_refused. Qed.
 Print Assumptions C04_eventually_entered_or_refused.
 
-(* calls on a LocalReferenceable (no connection; ordered by foolscap.eventual alone) are entered in issue order:
-   entered ++ still-queued = 0, 1, ..., n-1 *)
-Theorem C04_local_calls_in_order : forall ops,
-  l_entered (lrun ops) ++ l_evq (lrun ops) = seq 0 (l_next (lrun ops)).
-Proof. exact local_calls_in_order. Qed.
-Print Assumptions C04_local_calls_in_order.
+(* foolscap.eventual's queue is an order-preserving channel, whatever else shares it -- unrelated callables, callables
+   that raise, callables that write when they run.  This is all that orders calls on a LocalReferenceable, and it is
+   what makes the byte stream of a connection over broker.LoopbackTransport (a Tub talking to itself: write() is
+   eventually(peer.dataReceived, ...)) arrive in the order written, i.e. it discharges the "wire is FIFO" assumption
+   of the theorems above for that transport:  delivered ++ still-queued = 0, 1, ..., n-1 *)
+Theorem C04_eventual_channel_in_order : forall ops,
+  l_entered (lrun ops) ++ datas (l_evq (lrun ops)) = seq 0 (l_next (lrun ops)).
+Proof. exact eventual_channel_in_order. Qed.
+Print Assumptions C04_eventual_channel_in_order.
